@@ -159,6 +159,9 @@ func dischargeAll(ctxs []*Ctx, outDir string, timeoutS int, par int, all bool) {
 			if o.Expect == "sat" {
 				tmo = 3
 			}
+			if o.Expect == "consistent" {
+				tmo = 5
+			}
 			r, rs := runSolvers(file, tmo, all && o.Expect == "")
 			o.Solver = r.solver
 			o.Ms = r.ms
@@ -177,6 +180,13 @@ func dischargeAll(ctxs []*Ctx, outDir string, timeoutS int, par int, all bool) {
 				}
 			}
 			switch {
+			case o.Expect == "consistent":
+				switch r.verdict {
+				case "unsat":
+					o.Verdict = "vacuous"
+				default:
+					o.Verdict = "reachable"
+				}
 			case o.Expect == "sat":
 				switch r.verdict {
 				case "unsat":
